@@ -165,7 +165,7 @@ PROPS["C10"] = {
 PROPS["C11"] = {
     "driver": "c11", "trace_spec": "TraceFlow",
     "mc_quick": FLOW_MC_Q[:2], "mc_thorough": FLOW_MC_T,
-    "require_classes": ["c11:inStatusLine", "c11:afterStatusLine", "c11:bare100", "c11:bareOther", "c11:otherInFields", "c11:otherFieldLine", "c11:otherComplete", "c11:late100", "c11:completed"],
+    "require_classes": ["c11:inStatusLine", "c11:afterStatusLine", "c11:bare100", "c11:bareOther", "c11:otherInFields", "c11:otherFieldLine", "c11:otherComplete", "c11:late100", "c11:second-100", "c11:completed"],
     "rule": "one case = one interim/final server head (100 with 4 reason variants, refusals bare / with fields / with Connection: close) x the prefix length at which the caller stops looking (every length, cumulatively re-presented) "
             "x HTTP/1.0 / 1.1 x request framing, continued to Cleanup on whichever path the flow takes; distinct = distinct (message, variant, version, give-up point)",
     "assumptions": FLOW_ASSUME,
@@ -201,7 +201,7 @@ PROPS["C12"] = {
     "mc_quick": [mc("MCDechunk", "MCDechunk_hostile.cfg", workers=8), mc("MCFlow", "MCFlow_quick.cfg", workers=6),
                  mc("MCFlow", "MCFlow_ReasonCap4.cfg", workers=4, expect_violation="NotPanicked")],
     "mc_thorough": [mc("MCDechunk", "MCDechunk_hostile_thorough.cfg", workers=16, timeout=3400, heap="16g"), mc("MCFlow", "MCFlow_thorough.cfg", workers=16, timeout=3000, heap="16g")],
-    "require_classes": ["h:ok", "h:err", "fault:long-name", "fault:many-fields", "fault:splice", "fault:strayCR", "fault:oversize"],
+    "require_classes": ["h:ok", "h:err", "fault:long-name", "fault:many-fields", "fault:splice", "fault:strayCR", "fault:oversize", "fault:highbit", "fault:odd-location"],
     "rule": "one case = one server byte string x one arrival/buffer schedule x one request configuration: (a) every string over the decoder alphabet {0,1,a,F,;,SP,CR,LF,x} up to length 5 (quick) / 6 "
             "into a chunked body reader, whole and in 1-byte pieces; (b) every token string up to length 3 / 4 over a 17-token head alphabet through the whole flow; (c) the 849 faulty exchanges "
             "TLC enumerates from spec/Faults.tla (delete / duplicate / truncate / oversize / flip / stray CR / stray LF / swap at every segment, splices, 128-200 fields, 64 KiB names, 5 close conditions) "
@@ -221,4 +221,13 @@ PROPS["C01"] = {
             "distinct = distinct (method, version, framing, Expect, responses, payload size)",
     "assumptions": ["the caller waits in Await100 until the server decided or all bytes arrived (giving up earlier changes what is sent, legitimately)",
                     "arrival points inside a 3xx head after a complete Location line are excluded (owned by C05 / known finding KF1)"],
+}
+
+# ---- extras beyond the 20 listed properties (not in MANIFEST.json): growth of the specification
+PROPS["X01"] = {
+    "driver": "x01", "trace_spec": "TraceCall",
+    "mc_quick": [mc("MCCall", "MCCall.cfg", workers=2), mc("MCCall", "MCCall_doc.cfg", workers=2), mc("MCCall", "MCCall_strict.cfg", workers=2, expect_violation="Refines")],
+    "require_kinds": ["crecv", "cbody", "cfin"],
+    "rule": "random histories over the single-call API (write with small buffers, premature into_receive, into_body before the response, partial heads, five framings)",
+    "assumptions": ["extra: documented contract of Call<State,B>; the pinned tree's deviation ReceiveBeforeHead is listed in known_findings.txt as an observation"],
 }
